@@ -5,44 +5,50 @@ import GoldModel.Lemmas.ProgRoundTrip
 
 `Stmt`, `Decl`, `Prog` (`Model/Prog.lean`) are the abstract syntax the property speaks about:
 
-* statements — assignment `lhs = e` (also `-=`, `+=`, `:=`; `lhs` whatever `ExprSpec.lhsb` admits: for
-  `Ex` an identifier), expression
-  statement, `return e`, `exit`/`break`/`continue`, `var x : T [absolute y]`, `type aName : T`, `uses a, b`,
-  `const c = lit`, and the blocks
+* statements — assignment `lhs = e` (also `-=`, `+=`, `:=`; `lhs` whatever `ExprSpec.lhsb` admits: for `Ex` an
+  identifier), expression statement, `return e`, `exit`/`break`/`continue`, `var x : T [absolute y]`,
+  `type aName : T`, `uses a, b`, `const c = lit [multiLang]`, and the blocks
   `if e … [elseif e …]* [else …] endif`, `while e … endwhile`, `loop … endloop`,
   `for i = e to|downto e [step e] … endfor`, `foreach e … endfor`, `repeat … until e`,
-  `switch e (when v, w | lo to hi … endwhen)* [else …] endswitch`, whose bodies are statement LISTS of any length
-  nested to any depth;
+  `switch e (when v, w | lo to hi … endwhen)* [else …] endswitch`, whose bodies are statement LISTS of any
+  length nested to any depth;
 * declarations — `proc Name[#Event] [( [const|var|inout] p : T, … )] [modifiers] … endproc`,
   `func Name [(…)] return T [modifiers] … endfunc` (modifiers `private`, `protected`, `final`, `override`; with
   `forward` or `external "lib"` the method has NO body), `const c = literal [multiLang]`,
   `[memory] f : T [private|…]* [absolute x]`, `class aName [(aParent)]`, `module aName`, `uses a, b, …`,
-  `type aName : T`; an annotation `[ … ]` may precede `class`, `module`, `type` and field declarations (it leaves no
-  trace in their trees) or stand on its own before a declaration that does not take it;
+  `type aName : T`; an annotation `[ … ]` may precede `class`, `module`, `type` and field declarations (it
+  leaves no trace in their trees) or stand on its own before a declaration that does not take it;
 * types `T` — `Name`, `Name(n)`, `refTo|listOf [[opt, …]] Name [inverse x]`, `lit to lit`, `[Name]`, `.Name`,
-  `array|sequence [Name | lit to lit] [[…]] of Name`, `instanceOf Name`, enumerations `( a, b = 1, … )` and sums
-  `A + ( … ) + B` of names and enumerations (these forms in parameters and record fields), and in variables, fields and
-  type declarations also `record [(Parent)] (name : T)* endrecord`, `proc [(params)]`, `func [(params)] return Name`;
+  `array|sequence [Name | lit to lit] [[…]] of Name`, `instanceOf Name`, enumerations `( a, b = 1, … )` and
+  sums `A + ( … ) + B` of names and enumerations (these forms also in parameters and record fields), and in
+  variables, fields and type declarations also `record [(Parent)] (name : T)* endrecord`, `proc [(params)]`,
+  `func [(params)] return Name`;
 * programs — lists of declarations.
 
-`toks` prints to tokens (any positions, any spellings), `tree` is the intended tree — kinds, names,
-ranges, selection ranges and attributes exactly as the parser's semantic actions build them — and
-`WF` says every token has the kind its place requires, every expression is well formed, an
-expression statement starts with a token no other statement parser reacts to, and a method body
-contains no terminator of the method (`wfb` is the executable form, `…wfb_iff`).
+`toks` prints to tokens (any positions, any spellings), `tree` is the intended tree — kinds, names, ranges,
+selection ranges and attributes exactly as the parser's semantic actions build them — and `WF` says every token
+has the kind its place requires, every expression is well formed, an expression statement starts with a token no
+other statement parser reacts to, a method has a body exactly when no modifier says `forward`/`external`, and a
+method body contains no terminator of the method (`wfb` is the executable form, `…wfb_iff`).
 
-Expressions are a PARAMETER (`ExprSpec ε`): the statement layer needs only `ExprSpec.Sound` —
-`parse_expr (print e ++ k) = (tree e, k)` with no diagnostic before every continuation `k` that
-cannot extend an expression, and "an expression that may stand as a statement is not taken by
-`parse_assignment`", and "an assignment target is taken by `parse_dot_ops`".  `exSpec_sound` discharges it for `Ex` by `expr_roundtrip`; nothing here looks
-inside `Ex`, so the theorems extend to whatever `Ex` grows into.
+Expressions are a PARAMETER (`ExprSpec ε`).  The statement layer needs only `ExprSpec.Sound`:
+`parse_expr (print e ++ k) = (tree e, k)` with no diagnostic before every continuation `k` that cannot extend an
+expression; an expression that may stand as a statement is not taken by `parse_assignment`; an assignment
+target is taken by `parse_dot_ops`.  `exSpec_sound` discharges it for `Ex` by `expr_roundtrip`; nothing here
+looks inside `Ex` beyond "an atom is an assignment target", so the theorems extend to whatever `Ex` grows into
+(`noAssign_of_dotops`, `lhs_of_dotops` are the lemmas an instance with calls / member chains needs).
 
-The theorems are about the model of `src/parser/{mod,body_parser}.rs` (`Model/Grammar.lean`, byte-exact
-with the implementation on the correspondence cases).  All are unbounded: any number of
-declarations, statements, parameters, `elseif`s, any nesting depth.  On such input the three
-recovery points (`parse_repeat_w_context`/`parse_until_w_context` in bodies and blocks, the file
-level of `parse_gold`, the silent one of separated lists) are shown not to fire, except the silent
-one on `( )`, which emits nothing.
+The theorems are about the model of `src/parser/{mod,body_parser}.rs` (`Model/Grammar.lean`, byte-exact with the
+implementation on the correspondence cases).  All are unbounded: any number of declarations, statements,
+parameters, `elseif`s, `when`s, fields, any nesting depth.  On such input the recovery points
+(`parse_repeat_w_context`/`parse_until_w_context` in bodies and blocks, the file level of `parse_gold`, the silent
+ones of separated lists and reference options) are shown not to fire, except the silent ones on `( )` and on an
+absent option list, which emit nothing.
+
+NOT covered: comments (the token parsers skip them, so where a comment becomes a node depends on what follows
+it, and `Stop` — the continuation predicate of the expression theorem — excludes them), OQL, annotations inside
+enumerations and records, and whatever `Ex` does not cover (unary operators, calls, member access, indexing, set
+literals — being added to `Ex` independently).
 -/
 namespace Gold.C06
 open Gold Gold.Peg Gold.Gram
